@@ -420,6 +420,42 @@ func c11Cursor(c *Ctx) {
 		c.Bad("C11.M6-cursor-discipline", key, rd.In.Pos(), "protocol does not read from a buffer over the remaining input: "+abbreviate(rd.X.Args[1].String()))
 		return
 	}
+	// a protocol with an empty payload that is read last issues a zero-length Read at the end of the input. io.Reader
+	// allows that to fail with EOF (bytes.Reader does; bytes.Buffer returns 0, nil). Either no protocol issues such a
+	// read unguarded and treats its error as a failure, or the reader is a bytes.Buffer.
+	_, isBuffer := Match(Call("bytes.NewBuffer", Any()), rd.X.Args[1])
+	var fragile []string
+	for _, f := range c.Funcs(metaPkg) {
+		if f.SSA.Name() != "ReadFrom" || len(f.SSA.Params) != 2 {
+			continue
+		}
+		rp := f.SSA.Params[1]
+		for _, cs := range c.Calls(f.SSA, Invoke("io.Reader.Read")) {
+			if cs.X.Args[0].V != ssa.Value(rp) {
+				continue
+			}
+			h := c.ErrPropagates(cs)
+			if h.Kind == "swallowed" || h.Kind == "dropped" {
+				continue
+			}
+			// guarded by a non-zero size?
+			guarded := false
+			for _, fct := range c.FactsAt(cs.In.Block()) {
+				if _, m := Match(Bin("==", Any(), Const("0")), fct.Cond); m && !fct.Val {
+					guarded = true
+				}
+				if _, m := Match(Op("binop", ">", Any(), Const("0")), fct.Cond); m && fct.Val {
+					guarded = true
+				}
+			}
+			if !guarded {
+				fragile = append(fragile, f.Name+" at "+c.pos(cs.In.Pos()))
+			}
+		}
+	}
+	c.Check(isBuffer || len(fragile) == 0, "C11.M6-cursor-discipline", key+" › zero-length read at end of input", rd.In.Pos(),
+		"protocols read from a bytes.Buffer, whose zero-length Read never fails (needed by: "+strings.Join(fragile, ", ")+")",
+		"the per-protocol reader is not a bytes.Buffer although "+strings.Join(fragile, ", ")+" reads its payload with a plain Read and fails on any error: an empty payload in last position gets io.EOF, so the library's own encoding no longer decodes")
 	B := bb["B"]
 	ph, isPhi := B.V.(*ssa.Phi)
 	switch {
